@@ -168,6 +168,16 @@ func (p *clientStreamProcessorFMP4) processSegment(ctx context.Context, seg *seg
 		leadingTimeConvFMP4(p.client).setLeadingNTPReceived()
 	}
 
+	// track processors signal every processed part track through chPartTrackProcessed,
+	// that is read after all part tracks have been pushed: it must have room for all of them.
+	maxPartTrackCount := 0
+	for _, part := range parts {
+		maxPartTrackCount += len(part.Tracks)
+	}
+	if maxPartTrackCount > cap(p.chPartTrackProcessed) {
+		p.chPartTrackProcessed = make(chan struct{}, maxPartTrackCount)
+	}
+
 	partTrackCount := 0
 
 	for _, part := range parts {
